@@ -53,6 +53,8 @@ def obligations(tier):
     obls.append(CH("stored_files_of_any_content", H, "stored_file_junk", t, mode="E1s", functions=["stix2.datastore.filesystem._check_object_from_file", "stix2.datastore.filesystem.FileSystemSource.query"],
                    stubs=["os/io calls of stix2.datastore.filesystem replaced by an in-memory file system (props/fakefs.py)"],
                    bounds="18 file contents (bundles without / with empty / with junk objects, JSON of every kind, text that is not JSON, the empty file) x 3 places in the store layout x allow_custom x get / all_versions / 3 queries / get with a named version"))
+    obls.append(CH("deep_structures_outside_the_slot_table", H, "deep_structures", t, mode="E1s", functions=F + ["stix2.utils.detect_spec_version", "stix2.markings.utils.iterpath"],
+                   bounds="5 documents nested 3000 deep where the slot table does not reach (bundles inside bundles, a deep custom value next to a granular marking, deep list elements, a deep bundle member) x parse / parse with a version / constructor x allow_custom"))
     obls.append(CH("plain_python_subclasses", H, "plain_subclass", t, mode="E1s", functions=F + ["stix2.v21.sro.Relationship._check_object_constraints", "stix2.v21.sro.Sighting._check_object_constraints"],
                    bounds="an empty Python subclass of every buildable registered class (both versions): builds from the base's arguments to the same text, and with each of 43 junk values "
                           "in one argument raises only from the family (no RecursionError from super() through self.__class__)"))
